@@ -349,3 +349,20 @@ Definition c_scaling_cov (tol lam : float) (k : Z) (Hs1 Hs2 : s3f) : N :=
   let l2 := lam * lam in
   let scaled := S3 (l2 * m00 Hs1) (l2 * m01 Hs1) (l2 * m11 Hs1) (l2 * m02 Hs1) (l2 * m12 Hs1) (l2 * m22 Hs1) in
   ofb (close6 tol (sig3 scaled) scaled Hs2 && spd_strict k Hs1 && spd_strict k Hs2).
+
+(** ** third-order correction under z -> lam z, ds -> ds / lam, v -> lam v (lam a power of two):
+    eta -> eta / lam; at interior points the stored Hessian factorises and eta is not the zero
+    vector that [higher_correction] returns when the factorisation is reported to fail. *)
+Definition c_hc_cov (tol lam : float) (H2 : s3f) (ds2 v2 eta1 eta2 : v3f) : N :=
+  match sym3_chol_factor TOpsF H2 with
+  | None => 1%N
+  | Some L =>
+    let u := sym3_chol_solve TOpsF L ds2 in
+    let nu := PrimFloat.sqrt (sym3_quad_form TOpsF H2 u u) in
+    let nv := PrimFloat.sqrt (sym3_quad_form TOpsF H2 v2 v2) in
+    let '(s0, s1, s2) := sig3 H2 in
+    let k := nu * nv in
+    let '(e0, e1, e2) := eta1 in
+    ofb (close3 tol (s0 * k, s1 * k, s2 * k) (e0 / lam, e1 / lam, e2 / lam) eta2
+         && negb (all3 feq eta2 (0, 0, 0)) && spd_ok 30 H2)
+  end.
